@@ -17,6 +17,8 @@ def covers(focus, q=(260, 200), t=(2500, 2500, 1200, 800)):
                          cov("U3", "U3_Scripts", focus, t[2]), cov("U4", "U4_Scripts", focus, t[3])]}
 
 
+MZI_OVER = {"PolGates": "None", "CompGates": "BS_Gates", "FockGates": "MZI_Gates", "CustomOps2": "None", "CustomOps3": "None",
+            "Kraus1": "None", "Kraus2": "None"}
 STRUCT = {"envcombine", "envreorder", "cecombine", "cereorder", "traceout", "newcomposite"}
 
 REPLAY_PLANS = {
@@ -89,9 +91,11 @@ REPLAY_PLANS = {
                                sim("U2", 200, 12, "Fam_C10", "NextSim_Resize")]}),
     "C11": dict(
         cover={"quick": [cov("U4", "U4_Scripts", "F_Op", 360, over={"PolGates": "None", "CompGates": "BS_Gates", "FockGates": "PS_Gates", "CustomOps2": "None", "CustomOps3": "None"}),
-                         cov("U2", "U2_ScriptsQ", "F_Op", 120)],
-               "thorough": [cov("U4", "U4_Scripts", "F_Op", 3000), cov("U2", "U2_Scripts", "F_Op", 2000), cov("U4", "U4_Scripts", "F_Op", 2500, depth=2, over={"PolGates": "None", "CompGates": "BS_Gates", "FockGates": "PS_Gates", "CustomOps2": "None", "CustomOps3": "None", "Kraus1": "None", "Kraus2": "None"})]},
-        actions={"opn", "op1"},
+                         cov("U2", "U2_ScriptsQ", "F_Op", 120),
+                         cov("U4", "U4_MZI", "F_Measure", 160, init="U4_MZIInit", over=MZI_OVER)],
+               "thorough": [cov("U4", "U4_Scripts", "F_Op", 3000), cov("U2", "U2_Scripts", "F_Op", 2000),
+                            cov("U4", "U4_MZI", "F_Measure", 4000, init="U4_MZIInit", over=MZI_OVER), cov("U4", "U4_Scripts", "F_Op", 2500, depth=2, over={"PolGates": "None", "CompGates": "BS_Gates", "FockGates": "PS_Gates", "CustomOps2": "None", "CustomOps3": "None", "Kraus1": "None", "Kraus2": "None"})]},
+        actions={"opn", "op1", "measure"},
         exhaustive={"quick": [("U4", 3, "Fam_C11")], "thorough": [("U4", 4, "Fam_C11")]},
         ex_init={"U4": "U4_ExInit"},
         simulate={"quick": [sim("U4", 128, 10, "Fam_C11", "NextSim_Comp", over={"PolGates": "None", "CompGates": "BS_Gates", "FockGates": "PS_Gates", "CustomOps2": "None", "CustomOps3": "None"})],
